@@ -768,6 +768,15 @@ func keyOf(sp *caseSpec, o obs, f *failure) string {
 	if f.kind == "harness" {
 		return "HARNESS/reference-self-disagreement"
 	}
+	// the appended families name the call site under test themselves: the multi-result combinator
+	// whose outputs were consumed interleaved / FoldRight and the way its fold function treats
+	// the lazy argument (the stages before it only shaped the input)
+	if sp.Term == "split" && sp.Split != nil && f.site != "" {
+		return f.site + "/" + f.kind
+	}
+	if sp.Term == "foldRightForce" && sp.FR != nil && f.site != "" {
+		return f.site + "(" + sp.FR.class() + ")/" + f.kind
+	}
 	names := []string{}
 	for _, st := range planAll(sp, nil) {
 		names = append(names, st.name)
@@ -1047,6 +1056,9 @@ func familyOf(tier string, b int) string {
 	return "lazyarg"
 }
 
+// familyKeysSeen: violation keys of the appended families this worker process has minimised.
+var familyKeysSeen = map[string]int{}
+
 // runFamilyCase runs one case of the appended families.
 func runFamilyCase(w *vrt.W, i int, family string) {
 	r := w.Rand(i)
@@ -1062,6 +1074,14 @@ func runFamilyCase(w *vrt.W, i int, family string) {
 	w.Guard(i, func() any { return sp }, func() {
 		o, f = exec(sp, w.Site)
 		if f != nil {
+			// the key of these families does not depend on the minimisation: minimise the first
+			// occurrences per key and worker only (a broken Duplicate fails thousands of schedules)
+			if pre := keyOf(sp, o, f); familyKeysSeen[pre] >= 3 {
+				w.Violation(i, pre, f.detail+"\ncase (not minimised, this worker has minimised 3 cases with this key): "+describe(sp), map[string]any{"original": sp})
+				return
+			} else {
+				familyKeysSeen[pre]++
+			}
 			msp, mf := shrink(sp, f)
 			mo, _ := exec(msp, nil)
 			key := keyOf(msp, mo, mf)
@@ -1217,12 +1237,14 @@ func main() {
 				}
 			}
 		},
-		Rule: "PIPELINE CASES (first 32 / 256 batches). case = PRNG pipeline spec: a source (instrumented iterator / iterator.Generate / instrumented list.Generate|GenerateFrom|Recurrence / list.Collect|iterator.ToList of an instrumented iterator / every plain constructor of Iterator, List, Seq) over an input of length 0,1,2..64 (sequential, sorted-with-repeats, random or few-valued ints) or unbounded, followed by 1..6 abstract stages (0 stages for 1/14 of the list sources: the constructor itself is consumed) (map, filter, filterMap, flatMap, take, drop, takeWhile, dropWhile, span-both, partition-both, prepend, append, zipWithIndex, zip, zip3, scan, tap, reverse, sort, pull, world hop, and the self-operand stages list.Zip(l.Tail^j, l) / Zip(l, l.Tail^j), list.Zip3(l, l.Tail, l.Tail.Tail), list.Combine(l, l.Tail^j) that use one lazy list several times at different offsets) each realised by one of the library's spellings for the current world (Iterator method / iterator.* / list.* / fp.Seq method / seq.*; stages a world lacks go through the iterator and back), consumed either by demanding the first k elements (k in {0,1,2,n/2,n,n+3,m/2,m,m+3}; optionally one more HasNext/NonEmpty; list walker with or without the last Tail) or by one terminal operation (ToSeq family, Count, Fold/FoldLeft/FoldRight/FoldTry/FoldOption/FoldError/FoldMap/Fold*UsingMap, Reduce over a sum, an affine-composition and a string monoid, GroupBy, Min/Max under the natural order and under an order by |x| mod m built five ways (ties), ToMap/ToSet/ToGoMap/ToGoSet, Sort, Exists/ForAll/Find, MakeString, Foreach, All, Duplicate). When the final value is a List, 70% of the demand cases and 35% of the terminal cases first consume it through an ACCESS SCRIPT: a PRNG sequence of Head/IsEmpty/NonEmpty/Unapply/Tail calls on cells addressed by (table, position) of 9 kinds (all Tails then the last Head; all Tails then Heads ascending / descending / random order / with a stride; a cell's head after its successor's; two interleaved traversals 1..3 cells apart; a second traversal forking off in the middle; random calls over three tables) that stays within the demand k (+ peek) of the case and takes Tail only from cells that are non-empty in the reference. Oracles: output = plain-slice reference (which must itself equal the pull-model reference); under an access script the cell at position i holds element i of the reference whatever the order of demands; fold callbacks budgeted with len(input) calls; pulls of the instrumented source <= pulls of the pull model in which every stage holds one pre-computed output + S (Iterator) or 2S+2 (List), S = number of library stages - checked after the access script and again after the head-first walk; each cell of the instrumented list evaluated at most once; running the same access script again, a second and an interleaved traversal of the same list value evaluate nothing again (no source pull, no callback, no cell); Min/Max under an order with ties return an element of extreme key and exactly the element seq.Min/seq.Max return on the same elements. distinct_nontrivial counts distinct (source, sequence of library call sites, consumer) fingerprints of cases with >= 2 library stages, input length >= 2 (or unbounded) and a non-empty expected output, plus the distinct tie cases with at least one duplicate key. TIE CASES (last 4 / 16 batches). case = 0..48 records {Key, ID=position} over 1..4 distinct keys (one key, all distinct, sorted runs, random), one of 6 Seq / 12 Iterator / 12 List constructors for the three spellings, an Ord by Key (5 constructions, ascending or descending), a predicate on Key. Every element-selecting operation is run as seq.*, iterator.*, list.* on the same elements and compared including the ID: Min, Max, ToSet under a Hashable by Key (must be a correct answer, and the iterator / list spelling must return the element the seq spelling returns: tie-choice), Find (first match), GroupBy (groups in input order), ToMap/ToGoMap (last wins), Filter/FilterNot/FilterMap/Partition/Span/TakeWhile/DropWhile (input order), Fold/FoldLeft/FoldRight (elements in order), Reduce/FoldMap with the monoids 'first of maximal key' and 'last of minimal key', Sort (sorted permutation; stability not demanded).",
+		Rule: "PIPELINE CASES (first 32 / 256 batches). case = PRNG pipeline spec: a source (instrumented iterator / iterator.Generate / instrumented list.Generate|GenerateFrom|Recurrence / list.Collect|iterator.ToList of an instrumented iterator / every plain constructor of Iterator, List, Seq) over an input of length 0,1,2..64 (sequential, sorted-with-repeats, random or few-valued ints) or unbounded, followed by 1..6 abstract stages (0 stages for 1/14 of the list sources: the constructor itself is consumed) (map, filter, filterMap, flatMap, take, drop, takeWhile, dropWhile, span-both, partition-both, prepend, append, zipWithIndex, zip, zip3, scan, tap, reverse, sort, pull, world hop, and the self-operand stages list.Zip(l.Tail^j, l) / Zip(l, l.Tail^j), list.Zip3(l, l.Tail, l.Tail.Tail), list.Combine(l, l.Tail^j) that use one lazy list several times at different offsets) each realised by one of the library's spellings for the current world (Iterator method / iterator.* / list.* / fp.Seq method / seq.*; stages a world lacks go through the iterator and back), consumed either by demanding the first k elements (k in {0,1,2,n/2,n,n+3,m/2,m,m+3}; optionally one more HasNext/NonEmpty; list walker with or without the last Tail) or by one terminal operation (ToSeq family, Count, Fold/FoldLeft/FoldRight/FoldTry/FoldOption/FoldError/FoldMap/Fold*UsingMap, Reduce over a sum, an affine-composition and a string monoid, GroupBy, Min/Max under the natural order and under an order by |x| mod m built five ways (ties), ToMap/ToSet/ToGoMap/ToGoSet, Sort, Exists/ForAll/Find, MakeString, Foreach, All, Duplicate). When the final value is a List, 70% of the demand cases and 35% of the terminal cases first consume it through an ACCESS SCRIPT: a PRNG sequence of Head/IsEmpty/NonEmpty/Unapply/Tail calls on cells addressed by (table, position) of 9 kinds (all Tails then the last Head; all Tails then Heads ascending / descending / random order / with a stride; a cell's head after its successor's; two interleaved traversals 1..3 cells apart; a second traversal forking off in the middle; random calls over three tables) that stays within the demand k (+ peek) of the case and takes Tail only from cells that are non-empty in the reference. Oracles: output = plain-slice reference (which must itself equal the pull-model reference); under an access script the cell at position i holds element i of the reference whatever the order of demands; fold callbacks budgeted with len(input) calls; pulls of the instrumented source <= pulls of the pull model in which every stage holds one pre-computed output + S (Iterator) or 2S+2 (List), S = number of library stages - checked after the access script and again after the head-first walk; each cell of the instrumented list evaluated at most once; running the same access script again, a second and an interleaved traversal of the same list value evaluate nothing again (no source pull, no callback, no cell); Min/Max under an order with ties return an element of extreme key and exactly the element seq.Min/seq.Max return on the same elements. distinct_nontrivial counts distinct (source, sequence of library call sites, consumer) fingerprints of cases with >= 2 library stages, input length >= 2 (or unbounded) and a non-empty expected output, plus the distinct tie cases with at least one duplicate key. TIE CASES (last 4 / 16 batches). case = 0..48 records {Key, ID=position} over 1..4 distinct keys (one key, all distinct, sorted runs, random), one of 6 Seq / 12 Iterator / 12 List constructors for the three spellings, an Ord by Key (5 constructions, ascending or descending), a predicate on Key. Every element-selecting operation is run as seq.*, iterator.*, list.* on the same elements and compared including the ID: Min, Max, ToSet under a Hashable by Key (must be a correct answer, and the iterator / list spelling must return the element the seq spelling returns: tie-choice), Find (first match), GroupBy (groups in input order), ToMap/ToGoMap (last wins), Filter/FilterNot/FilterMap/Partition/Span/TakeWhile/DropWhile (input order), Fold/FoldLeft/FoldRight (elements in order), Reduce/FoldMap with the monoids 'first of maximal key' and 'last of minimal key', Sort (sorted permutation; stability not demanded); FoldRight also with a fold function that forces its lazy argument twice (len(input) call budget). INTERLEAVED CASES (8 / 32 batches after the tie batches, split.go). case = a finite source of 0..400 ints (55%: the instrumented iterator itself, else any finite constructor of the three worlds followed by 0..2 stages; a final List / Seq is turned into an iterator by iterator.FromList / List / seq.Iterator / FromSeq / FromSlice / Of), handed to a tree of 1..3 multi-result combinators iterator.Duplicate / Span / Partition (an output is split again in 22% of the cases: 2..4 outputs) with predicates from a palette of 13 (incl. sparse and run-shaped ones: |x|%12==11, |x|%16!=0, |x|%32==5, (|x|/10)%2==0, (|x|/33)%2==0), every output read as an Iterator (HasNext/Next or NextOption) or through a lazy List built on it (list.Collect, iterator.ToList), and a SCHEDULE (pure data): (side, next n | next n without HasNext | peek = HasNext/NonEmpty only | drain) of 5 kinds - leadLag (rounds: the leader gets 1..8 source elements ahead, the other output reads 1..5, the leader runs ahead by d in {0,1,7,8,9,15,16,17,31,32,33,64,65} source elements, the lagging output catches up completely / by 1..5 / overtakes by 1..9 so that the roles swap; new pair of outputs now and then), random (chunks from {1,..,5,7,8,9,15,16,17,31,32,33,64,65}), alternate (fixed chunk per output), burst (one leadLag round), sequential (control) - always closed by draining every output in PRNG order. Oracles: every output delivers exactly its plain-slice reference (TakeWhile/DropWhile/Filter/complement along its path), element by element in order whatever the schedule; HasNext/NonEmpty/NextOption agree with the reference at every point and after exhaustion; with the instrumented iterator as direct source the pulls never exceed what the most advanced output needs when every stage holds one pre-computed output (+1 per tree level) and are never fewer than the delivered elements need (each element is pulled once); a List-backed output walked again evaluates nothing. Keys: <iterator.Duplicate|Span|Partition of the tree root>/interleaved-disagrees etc. LAZY-ARGUMENT CASES (4 / 16 batches at the end, lazyarg.go). case = a finite source of 0..200 ints in one of the three worlds, 0..2 stages (output <= 260), then seq.FoldRight / iterator.FoldRight / list.FoldRight with a fold function from a palette of 11 that forces its lazy.Eval argument never (Done(x)), once (returned as is, Get, Map), twice (Get in a condition and again in the result; Get in a condition and Map in the result; lazy.Map2(rest,rest); rest.FlatMap(..rest.Map..)), three times (all three values must be equal), or 0/1/2 times depending on the element; the returned Eval is forced 1..3 times. Oracles: every Get of the result = the plain right fold on the slice (call-by-need); the fold function is called at most len(input) times in total (vrt.Budget -> .../nontermination: exponential re-evaluation of the lazy argument trips it after len(input)+1 calls) and not for elements the result does not depend on (.../forces-undemanded-suffix). distinct_nontrivial also counts distinct interleaved cases with >= 9 elements in which the leading output changed at least once, and distinct lazy-argument cases with >= 2 elements.",
 		Assumptions: []string{
 			"callbacks are pure functions of their arguments (palettes of 8 functions, 8 predicates, 6 expanders, 4 partial functions, 3 scan functions)",
 			"pipeline elements are ints (ties: ints ordered by |x| mod m); tie cases use one record type {Key, ID int}; pipelines are PRNG samples, not an enumeration",
 			"the look-ahead allowance is one produced element per library stage (plus the slack stated in the rule); unbounded sources are used only where the one-look-ahead model itself terminates",
 			"Tail() of an empty List is an empty List (list.Nil, list.Seq and fp.ListAdaptor all do that and list.Zip relies on it): the self-operand stages take l.Tail() up to 3 times without testing for emptiness; access scripts never take Tail of a cell that is empty in the reference",
+			"lazy.Eval is a trampoline without a result cache: an Eval that the USER's fold function builds from two uses of its lazy argument (lazy.Map2(rest, rest, ..), rest.FlatMap(.. rest.Map ..)) runs the Eval of the rest twice each time it is run, 2^n lazy.Run steps for n elements by construction of that value, although FoldRight calls the fold function once per element. Those two palette entries are used on <= 12 elements only; forcing by Get (any number of times) is used on up to 260 elements. The termination oracle counts calls of the fold function, not lazy.Run steps",
+			"interleaved cases: a schedule never reads one output from two goroutines; the lead of one output over another is measured in source elements strictly needed for what each output delivered",
 			"which of several Ord-equal extremes Min/Max return and which Eqv-equal representative ToSet keeps is defined by the eager seq.* computation on the same elements (the property's wording); seq.* itself is only required to return one of the correct answers",
 		},
 		Floors: func(tier string) map[string]int64 {
@@ -1253,6 +1275,33 @@ func main() {
 			for _, n := range tieSites() {
 				fl["hit."+n] = 1
 			}
+			// multi-result combinators consumed under interleaving schedules
+			for k, v := range map[string]int64{"split.cases": 15000, "split.cases_leader_changed": 6000, "split.cases_pulls_checked": 7000,
+				"split.cases_with_list_backed_side": 8000, "split.cases_output_split_again": 2500, "split.cases_next_without_hasnext": 7000,
+				"split.cases_hasnext_on_exhausted_side": 7000, "split.input.len130plus": 5000, "split.input.len0to8": 1000,
+				"split.cases_lead_ge_9_after_lagging_side_read_from_buffer": 8000, "split.cases_lead_ge_17_after_lagging_side_read_from_buffer": 7000,
+				"split.cases_lead_ge_33_after_lagging_side_read_from_buffer": 6000, "split.cases_lead_ge_65_after_lagging_side_read_from_buffer": 4000,
+				"split.root.iterator.Duplicate": 5000, "split.root.iterator.Partition": 5000, "split.root.iterator.Span": 2000,
+				"split.schedule.leadLag": 5000, "split.schedule.random": 3000, "split.schedule.alternate": 1500, "split.schedule.burst": 1000, "split.schedule.sequential": 500,
+				"split.read_via.Iterator.Next": 10000, "split.read_via.Iterator.NextOption": 2500, "split.read_via.list.Collect": 4000, "split.read_via.iterator.ToList": 4000,
+				"split.source.list": 2000, "split.source.seq": 500, "split.outputs.3": 2000, "split.outputs.4": 400,
+				"hit.split:iterator.Duplicate": 2000, "hit.split:iterator.Partition": 2000, "hit.split:iterator.Span": 2000} {
+				fl[k] = v
+			}
+			// fold functions that force their lazy argument 0, 1, 2, 3 times
+			for k, v := range map[string]int64{"lazyarg.cases": 6000, "lazyarg.input.len64plus": 1500, "lazyarg.input.len0to8": 1500,
+				"lazyarg.cases_len64plus_forced_twice_or_more_per_call": 300, "lazyarg.cases_every_call_forces_twice_or_more": 700,
+				"lazyarg.cases_result_ignores_a_suffix": 1000, "lazyarg.result_forced.1": 1500, "lazyarg.result_forced.2": 1500, "lazyarg.result_forced.3": 1500} {
+				fl[k] = v
+			}
+			for _, v := range frVariants {
+				fl["lazyarg.iterator.fold_function."+v] = 150
+				fl["lazyarg.list.fold_function."+v] = 200
+				fl["lazyarg.seq.fold_function."+v] = 40
+			}
+			for _, wn := range worldNames {
+				fl["hit.lazyarg:"+wn+".FoldRight"] = 500
+			}
 			return fl
 		},
 		Finish: func(tier string, m *vrt.Merged, cov map[string]any) {
@@ -1278,6 +1327,9 @@ func main() {
 			cov["list_producers_registered"] = len(listProducers())
 			cov["list_producers_never_consumed_by_access_script"] = unscripted
 			cov["max_observed_pulls_minus_need"] = m.Maxes["max_pulls_minus_need"]
+			cov["interleaved_max_lead_in_source_elements"] = m.Maxes["split.max_lead_in_source_elements"]
+			cov["interleaved_max_lead_after_lagging_output_read_from_buffer"] = m.Maxes["split.max_lead_after_lagging_side_read_from_buffer"]
+			cov["lazy_argument_fold_functions"] = frVariants
 		},
 	})
 }
